@@ -1,6 +1,6 @@
 (** C18 — Printed durations, sizes and throughputs are truthful truncations.
     Statements only; each closed by [exact] of a lemma in Proofs/Fmt*.v. *)
-From DivanV Require Import Base.Res Generated.Consts Model.FmtF64 Model.FmtDuration Model.FmtScale
+From DivanV Require Import Base.Res Generated.Consts Generated.Consts2 Model.FmtF64 Model.FmtDuration Model.FmtScale
   Proofs.FmtF64 Proofs.FmtDuration Proofs.FmtScale.
 Local Open Scope N_scope.
 
@@ -209,3 +209,15 @@ Theorem C18_scaled_sb_approx_sound : forall f sig a b out, b <> 0 ->
     out = spec_scaled_string f sig x y.
 Proof. exact scaled_sb_approx_sound. Qed.
 Print Assumptions C18_scaled_sb_approx_sound.
+
+(** Obligations on the generated suffix tables of util/fmt.rs
+    (tools/extract_consts2.py): the unit suffixes typed into [spec_suffix] are
+    the code's, for every scale One..Peta. *)
+Theorem C18_suffix_tables :
+  suffix_bytes_decimal = map (spec_suffix (SBytes false)) [0; 1; 2; 3; 4; 5] /\
+  suffix_bytes_binary = map (spec_suffix (SBytes true)) [0; 1; 2; 3; 4; 5] /\
+  suffix_chars = map (spec_suffix SChars) [0; 1; 2; 3; 4; 5] /\
+  suffix_cycles = map (spec_suffix SCycles) [0; 1; 2; 3; 4; 5] /\
+  suffix_items = map (spec_suffix SItems) [0; 1; 2; 3; 4; 5].
+Proof. repeat split; reflexivity. Qed.
+Print Assumptions C18_suffix_tables.
